@@ -33,8 +33,23 @@ SCOPE = {
 }
 
 # in-place writes examined on today's tree (confirmed by reading): the rule must keep seeing at least these
-FLOOR = {'C01': (3, 3), 'C09': (3, 10), 'C10': (6, 19), 'C11': (11, 8), 'C12': (4, 8), 'C13': (1, 6), 'C14': (5, 36),
-         'C15': (3, 4), 'C16': (2, 8), 'C17': (1, 4), 'C19': (1, 0)}      # (functions entered, distinct in-place write statements)
+# entry points the property's own rules run abstractly on today's tree (confirmed by a run): each one that still exists must keep
+# being examined.  Private helpers are deliberately not listed: inlining or renaming one is not a defect.
+RUN = {
+    'C01': ['correlog.CORRELOGRAMPSD', 'periodogram.speriodogram'],
+    'C09': ['correlation.CORRELATION', 'correlation.xcorr', 'linalg.corrmtx'],
+    'C10': ['cholesky.CHOLESKY', 'levinson.LEVINSON', 'toeplitz.HERMTOEP', 'toeplitz.TOEPLITZ'],
+    'C11': ['levinson.rlevinson', 'linear_prediction.ac2poly', 'linear_prediction.ac2rc', 'linear_prediction.is2rc',
+            'linear_prediction.lar2rc', 'linear_prediction.poly2ac', 'linear_prediction.poly2rc', 'linear_prediction.rc2ac',
+            'linear_prediction.rc2is', 'linear_prediction.rc2lar', 'linear_prediction.rc2poly'],
+    'C12': ['correlation.CORRELATION', 'levinson.LEVINSON', 'lpc.lpc', 'yulewalker.aryule'],
+    'C13': ['burg.arburg'],
+    'C14': ['covar.arcovar', 'covar.arcovar_marple', 'linalg.corrmtx', 'modcovar.modcovar', 'modcovar.modcovar_marple'],
+    'C15': ['arma.arma_estimate', 'arma.ma'],
+    'C16': ['burg.arburg', 'minvar.minvar'],
+    'C17': ['eigenfre.eigen'],
+    'C19': ['mtm.pmtm'],
+}
 
 RULE = 'no-input-mutation'
 TEXT = ('no in-place write (element / slice store, augmented assignment on an array) in an anchored function reaches storage that '
@@ -49,9 +64,9 @@ def report(prog, rep, pid, interps):
     rep.rule(RULE, TEXT)
     entered, stores, bad, unk = {}, {}, {}, {}
     for itp in interps:
-        for what, fn, _ln in itp.unknown:
-            if fn in scope:
-                unk.setdefault(fn, set()).add(what)
+        for e in itp.events:
+            if e[0] == 'alias-lost' and e[4] in scope:
+                unk.setdefault(e[4], set()).add('%s applied to storage of %s' % (e[3], '/'.join(sorted(map(str, e[2])))))
         for q in set(itp.trace):
             if q in scope:
                 entered[q] = entered.get(q, 0) + 1
@@ -80,8 +95,10 @@ def report(prog, rep, pid, interps):
                 continue
             rep.proved(RULE, fn, 'in-place writes', '%d distinct in-place write statements examined in %d abstract runs: none reaches '
                        'an argument\'s storage' % (n, entered[fn]), loc(f.mod, f.node) if f is not None else '')
-    rep.floor('anchored functions examined for input mutation', len(entered), FLOOR.get(pid, (1, 0))[0])
-    rep.floor('in-place writes examined', total, FLOOR.get(pid, (1, 0))[1])
+    # every anchored function the property's rules are known to run (and that still exists) must have been run
+    expected = [fn for fn in RUN.get(pid, ()) if _func(prog, fn) is not None]
+    rep.floor('anchored functions examined for input mutation', len([fn for fn in expected if fn in entered]), max(1, len(expected)))
+    rep.extra['in_place_writes_examined'] = total      # informative only: the number of write statements is not an invariant of the code
 
 
 def _func(prog, qname):
